@@ -14,6 +14,7 @@ import (
 	"strings"
 
 	jsonDoc "github.com/jsightapi/jsight-schema-go-library/formats/json"
+	"github.com/jsightapi/jsight-schema-go-library/notations/regex"
 	"github.com/jsightapi/jsight-schema-go-library/rules/enum"
 
 	"verif/internal/gen"
@@ -49,6 +50,8 @@ func c17ParseObserve(role, text string) lib.Obs {
 		return lib.Safe(func() error { return jsonDoc.New("doc", text).Check() })
 	case "schema":
 		return lib.Check(lib.Spec{Text: text})
+	case "regex":
+		return lib.Safe(func() error { return regex.New("@r", text).Check() })
 	default:
 		return lib.Safe(func() error { return enum.New("e", text).Check() })
 	}
@@ -116,6 +119,21 @@ func c17ParseRun(c *mon.Ctx, i int) {
 				t = text[:off] + text[off+1:]
 			}
 			c17ParseJudge(c, "document", t, refjson.Check([]byte(t), refjson.Strict))
+		}
+		// (1b) regex tokens cut short: the input ends early, the error sits on the last byte
+		// (whatever that byte is - an escaped slash, a backslash, a class)
+		if k%2 == 0 {
+			// (table patterns are written for the rule form: their slashes get escaped here; the
+			// grammar's patterns are already in token form)
+			pat := strings.ReplaceAll(mon.Pick(r, gen.RegexTable).Pattern, "/", "\\/")
+			if r.Bool() {
+				pat = gen.RegexPattern(r, gen.RegexOpts{}).Pattern
+			}
+			tok := "/" + pat + mon.Pick(r, []string{"", "\\/", "\\\\", "\\.\\d", "[a\\/]"}) + "/"
+			for cut := 1; cut < len(tok); cut++ {
+				t := tok[:cut]
+				c17ParseJudge(c, "regex", t, refjson.Result{EndedEarly: true})
+			}
 		}
 		// (2) schemas and enum rules: the plain-JSON part. Only texts without exponent numerals
 		// (the schema language refuses them by design) and only faults that are illegal in the
@@ -307,10 +325,63 @@ func c17Slots(s *model.Schema, n *model.Node, v *model.Val, parent *model.Val, i
 	}
 }
 
+// c17ShortcutUnknownKey: an object with a key shortcut and no additionalProperties; a document
+// key that neither a property nor the shortcut's string type accepts is reported at the key.
+func c17ShortcutUnknownKey(c *mon.Ctx, r *mon.Rng) {
+	short := model.PShort("@kk", model.Int("2"))
+	if r.Bool() {
+		short.Node.Rules = append(short.Node.Rules, model.RBool("optional", true))
+	}
+	obj := model.Obj(model.P("a", model.Int("1")), short)
+	if r.Bool() {
+		obj.Props[0], obj.Props[1] = obj.Props[1], obj.Props[0]
+	}
+	s := &model.Schema{Root: obj, Types: []*model.TypeDef{{Name: "@kk", Root: model.Str("k1").With(model.RStr("regex", "^k[0-9]$"))}}}
+	if r.Chance(1, 3) {
+		s.Root = model.Obj(model.P("in", obj))
+	}
+	sp := specOf(s, model.Style{})
+	built := buildSchema(sp)
+	if !built.ok {
+		c.Count("val: key-shortcut schema rejected by Check (skipped)", 1)
+		return
+	}
+	inner := model.VObject(model.M("a", model.VNumber("1")), model.M("k"+strconv.Itoa(r.Intn(10)), model.VNumber("7")))
+	bad := model.M(mon.Pick(r, []string{"zz", "K1", "k12", "", "a ", "ключ"}), gen.RandomScalar(r))
+	at := r.Intn(len(inner.Members) + 1)
+	ms := append([]model.Member{}, inner.Members[:at]...)
+	ms = append(ms, bad)
+	inner.Members = append(ms, inner.Members[at:]...)
+	v := inner
+	if s.Root != obj {
+		v = model.VObject(model.M("in", inner))
+	}
+	st := model.DocStyle{Pretty: r.Bool()}
+	if r.Bool() {
+		st.WS = r
+	}
+	doc := st.Render(v)
+	want := inner.Members[at].KeyPos
+	obs := built.validate(doc)
+	c.Eval(1)
+	c.Count("validation positions compared: unknown key next to a key shortcut", 1)
+	switch {
+	case obs.Panic != "":
+		c.Violate("val-pos", c17ValCase{sp, doc}, "reject at "+strconv.Itoa(want), obs.String(), "Validate panicked")
+	case obs.OK:
+		c.Violate("val-pos", c17ValCase{sp, doc}, "reject at "+strconv.Itoa(want), "accept", "a document key that neither a property nor the key shortcut accepts was accepted")
+	case obs.Pos != want || obs.Kit != "":
+		c.Violate("val-pos", c17ValCase{sp, doc}, "reject at "+strconv.Itoa(want), c17ObsPos(obs), "validation error does not point at the offending key (object with a key shortcut)")
+	}
+}
+
 func c17ValRun(c *mon.Ctx, i int) {
 	_, _, per := c17PosSizes(c.Tier)
 	r := c.Rng(172)
 	for k := 0; k < per; k++ {
+		if k%4 == 2 {
+			c17ShortcutUnknownKey(c, r)
+		}
 		ec := gen.Everything(r, gen.EverythingOpts{MaxDepth: r.Range(1, 4), MaxWidth: 4, Plain: true, NoUnions: true})
 		s := ec.S
 		// a nullable container is a union of two validators (container + null): positions are
